@@ -90,10 +90,13 @@ def gen_case(rng: random.Random, tier: str) -> dict:
             steps.append({"op": "create"})
         elif x < 0.6:
             steps.append({"op": "reindex"})
-        elif x < 0.8:
+        elif x < 0.72:
             paths = sorted(world["files"])
             k = rng.randint(1, len(paths))
             steps.append({"op": "reindex", "paths": rng.sample(paths, k)})
+        elif x < 0.8:
+            # an editor session in which the user changes nothing (EditorClosedEvent -> reindex)
+            steps.append({"op": "edit", "paths": [rng.choice(sorted(world["files"]))], "sessions": [{"edits": []}]})
         else:
             steps.append({"op": "day", "days": rng.choice([1, 1, 2, 30, 365])})
     return {"world": world, "steps": steps, "day0": core.EPOCH_DAY + rng.randrange(0, 400)}
@@ -217,7 +220,7 @@ def execute(case: dict, scratch: str) -> dict:
             ci = ob.canon_index(sim.db_path)
             if ob.canon_digest(ci) != baseline_index:
                 return rec.result(hist.viol("rerun-changed-index", st["op"], step=i, op=st))
-            rec.probe("rerun-" + st["op"] + ("-paths" if st.get("paths") else ""))
+            rec.probe("rerun-" + st["op"] + ("-paths" if st.get("paths") and st["op"] == "reindex" else ""))
     return rec.result()
 
 
